@@ -143,18 +143,24 @@ const ANAMES: [&str; 5] = ["e", "E", "g2", "H", "e2"];
 /// A valid problem: 0..6 points, 0..3 circles, 0..3 arcs, 1..20 instructions.
 pub fn gen_valid(rng: &mut Rng) -> GenProblem {
     let mut gp = GenProblem::default();
-    let np = rng.range(0, 6);
-    let nc = rng.range(0, 3);
-    let na = rng.range(0, 3);
-    let mut names: Vec<&str> = NAMES.to_vec();
+    // now and then a text several times larger than the usual one (many entities of every sort)
+    let big = rng.chance(1, 20);
+    let np = if big { rng.range(10, 40) } else { rng.range(0, 6) };
+    let nc = if big { rng.range(3, 12) } else { rng.range(0, 3) };
+    let na = if big { rng.range(3, 12) } else { rng.range(0, 3) };
+    let mut names: Vec<String> = NAMES.iter().map(|s| s.to_string()).collect();
+    let mut cn: Vec<String> = CNAMES.iter().map(|s| s.to_string()).collect();
+    let mut an: Vec<String> = ANAMES.iter().map(|s| s.to_string()).collect();
+    if big {
+        for i in 0..40 { names.push(format!("v{i}")); }
+        for i in 0..12 { cn.push(format!("ci{i}")); an.push(format!("ar{i}")); }
+    }
     rng.shuffle(&mut names);
-    gp.points = names[..np].iter().map(|s| s.to_string()).collect();
-    let mut cn: Vec<&str> = CNAMES.to_vec();
+    gp.points = names[..np].to_vec();
     rng.shuffle(&mut cn);
-    gp.circles = cn[..nc].iter().map(|s| s.to_string()).collect();
-    let mut an: Vec<&str> = ANAMES.to_vec();
+    gp.circles = cn[..nc].to_vec();
     rng.shuffle(&mut an);
-    gp.arcs = an[..na].iter().map(|s| s.to_string()).collect();
+    gp.arcs = an[..na].to_vec();
     // declarations, to be interleaved with the constraints
     let mut decls: Vec<GI> = Vec::new();
     for p in &gp.points {
@@ -166,7 +172,7 @@ pub fn gen_valid(rng: &mut Rng) -> GenProblem {
     for a in &gp.arcs {
         decls.push(GI::DeclArc(a.clone()));
     }
-    let ninstr = rng.range(1, 20);
+    let ninstr = if big { rng.range(20, 80) } else { rng.range(1, 20) };
     let mut cons: Vec<GI> = Vec::new();
     let pt = |rng: &mut Rng, gp: &GenProblem| gp.points[rng.below(gp.points.len())].clone();
     for _ in 0..ninstr {
